@@ -286,3 +286,133 @@ pub(crate) mod c03 {
         }
     }
 }
+
+mod c20 {
+    use super::*;
+
+    use crate::transport::network::mdns::{CommissionableFilter, MdnsBrowseState, MdnsResolveState};
+    use crate::transport::network::{Ipv4Addr, MatterRemoteService};
+
+    fn any_service() -> MatterRemoteService {
+        if kani::any() {
+            MatterRemoteService::Operational {
+                compressed_fabric_id: kani::any(),
+                node_id: kani::any(),
+            }
+        } else {
+            MatterRemoteService::Commissionable { id: kani::any() }
+        }
+    }
+
+    /// (variant tag, state) - an arbitrary rendezvous state
+    fn any_resolve_state() -> (u8, MdnsResolveState) {
+        let k: u8 = kani::any();
+        kani::assume(k < 4);
+        let s = match k {
+            0 => MdnsResolveState::Idle,
+            1 => MdnsResolveState::Requested { service: any_service() },
+            2 => MdnsResolveState::InFlight { service: any_service() },
+            _ => MdnsResolveState::Resolved {
+                addrs: Vec::new(),
+                port: kani::any(),
+                tcp_capable: kani::any(),
+                sii: kani::any(),
+                sai: kani::any(),
+                sat: kani::any(),
+            },
+        };
+        (k, s)
+    }
+
+    fn resolve_tag(s: &MdnsResolveState) -> u8 {
+        match s {
+            MdnsResolveState::Idle => 0,
+            MdnsResolveState::Requested { .. } => 1,
+            MdnsResolveState::InFlight { .. } => 2,
+            MdnsResolveState::Resolved { .. } => 3,
+        }
+    }
+
+    fn any_filter() -> CommissionableFilter {
+        CommissionableFilter {
+            discriminator: kani::any(),
+            short_discriminator: kani::any(),
+            vendor_id: kani::any(),
+            product_id: kani::any(),
+            device_type: kani::any(),
+            commissioning_mode_only: kani::any(),
+        }
+    }
+
+    fn any_browse_state() -> (u8, MdnsBrowseState) {
+        let k: u8 = kani::any();
+        kani::assume(k < 4);
+        let s = match k {
+            0 => MdnsBrowseState::Idle,
+            1 => MdnsBrowseState::Requested {
+                filter: any_filter(),
+                exclude: Vec::new(),
+            },
+            2 => MdnsBrowseState::InFlight {
+                filter: any_filter(),
+                exclude: Vec::new(),
+            },
+            _ => MdnsBrowseState::Found {
+                ip: IpAddr::V4(Ipv4Addr::from(kani::any::<u32>())),
+                port: kani::any(),
+                scope_id: kani::any(),
+                id: kani::any(),
+            },
+        };
+        (k, s)
+    }
+
+    fn browse_tag(s: &MdnsBrowseState) -> u8 {
+        match s {
+            MdnsBrowseState::Idle => 0,
+            MdnsBrowseState::Requested { .. } => 1,
+            MdnsBrowseState::InFlight { .. } => 2,
+            MdnsBrowseState::Found { .. } => 3,
+        }
+    }
+
+    // TIER: quick
+    // KIND: complete
+    #[kani::proof]
+    #[kani::unwind(8)]
+    fn c20_mdns_resolve_guard_releases_rendezvous() {
+        let (tag, state) = any_resolve_state();
+        let signal: Signal<MdnsResolveState> = Signal::new(state);
+        let armed: bool = kani::any();
+
+        let guard = MdnsResolveGuard { signal: &signal, armed };
+        drop(guard);
+
+        let after = signal.modify(|s| (false, resolve_tag(s)));
+        kani::assert(!armed || after == 0, "C20.mdns_resolve_guard.armed_drop_leaves_idle");
+        kani::assert(armed || after == tag, "C20.mdns_resolve_guard.disarmed_drop_changes_nothing");
+        kani::cover!(armed && tag == 2, "cancelled while in flight");
+        kani::cover!(armed && tag == 3, "cancelled with an unread result");
+        kani::cover!(!armed && tag != 0, "disarmed");
+    }
+
+    // TIER: quick
+    // KIND: complete
+    #[kani::proof]
+    #[kani::unwind(8)]
+    fn c20_mdns_browse_guard_releases_rendezvous() {
+        let (tag, state) = any_browse_state();
+        let signal: Signal<MdnsBrowseState> = Signal::new(state);
+        let armed: bool = kani::any();
+
+        let guard = MdnsBrowseGuard { signal: &signal, armed };
+        drop(guard);
+
+        let after = signal.modify(|s| (false, browse_tag(s)));
+        kani::assert(!armed || after == 0, "C20.mdns_browse_guard.armed_drop_leaves_idle");
+        kani::assert(armed || after == tag, "C20.mdns_browse_guard.disarmed_drop_changes_nothing");
+        kani::cover!(armed && tag == 2, "cancelled while in flight");
+        kani::cover!(armed && tag == 3, "cancelled with an unread result");
+        kani::cover!(!armed && tag != 0, "disarmed");
+    }
+}
